@@ -20,6 +20,9 @@ type fwFeed struct {
 	ended  map[string]bool // per collection
 	viaBkt bool
 	seen   int
+	hold   bool // dump whose callback blocks in its first document event until release
+	endedWhileHeld bool
+	endCause       string // what ended it first: terminator | drop | delete | close
 }
 
 func (f *fwFeed) allEnded() bool {
@@ -52,8 +55,12 @@ func init() {
 			w.hState = append(w.hState, "open")
 		}
 		// h0 creates both collections; h1 only ever opens what an operation needs
-		coll(w.h[0], NameA)
-		coll(w.h[0], NameB)
+		a := coll(w.h[0], NameA)
+		b := coll(w.h[0], NameB)
+		for _, cl := range []*rosmar.Collection{a, b} {
+			must(cl.SetRaw("d1", 0, nil, []byte("1")))
+			must(cl.SetRaw("d2", 0, nil, []byte("2")))
+		}
 		return w
 	})
 }
@@ -72,6 +79,7 @@ func (w *FeedWorld) Alphabet(tier int) []string {
 			}
 		}
 	}
+	ops = append(ops, "start/0/A/hold", "start/1/AB/hold", "release/0", "release/1", "release/2")
 	ops = append(ops, "term/0", "term/1", "term/2", "drop/0", "drop/1", "close/0", "close/1", "delete/0", "delete/1")
 	return ops
 }
@@ -97,7 +105,7 @@ func (w *FeedWorld) Apply(op string) (string, []Violation) {
 		if len(w.feeds) >= 3 || w.hState[hi] != "open" || w.shutdown {
 			return "skip", nil
 		}
-		target, dump := parts[2], parts[3] == "dump"
+		target, dump := parts[2], parts[3] == "dump" || parts[3] == "hold"
 		var colls []string
 		switch target {
 		case "A", "bA":
@@ -117,6 +125,10 @@ func (w *FeedWorld) Apply(op string) (string, []Violation) {
 		if dump {
 			args.Backfill = 0
 		}
+		if parts[3] == "hold" {
+			f.hold = true
+			f.rec.Hold = make(chan struct{})
+		}
 		var err error
 		if f.viaBkt {
 			args.Scopes = map[string][]string{"sc": colls}
@@ -129,12 +141,31 @@ func (w *FeedWorld) Apply(op string) (string, []Violation) {
 			result = "err"
 			break
 		}
-		if dump {
+		if dump && !f.hold {
 			for _, cn := range colls {
 				f.ended[cn] = true
 			}
 		}
 		w.feeds = append(w.feeds, f)
+	case "release":
+		var i int
+		fmt.Sscanf(parts[1], "%d", &i)
+		if i >= len(w.feeds) || !w.feeds[i].hold || !w.feeds[i].rec.Holding {
+			return "skip", nil
+		}
+		f := w.feeds[i]
+		quiesce()
+		before := len(f.rec.Events)
+		f.endedWhileHeld = f.allEnded()
+		f.rec.Release()
+		quiesce()
+		after := len(f.rec.Events) - before
+		if f.endedWhileHeld && after > 0 {
+			c.add("C16", "callback-after-end:"+f.endCause, "dump feed %d had been ended by %s while its callback was still running; after that callback returned it was invoked %d more times: %v", i, f.endCause, after, f.rec.Events[before:])
+		}
+		for _, cn := range f.colls { // a dump ends when it has delivered everything
+			f.ended[cn] = true
+		}
 	case "term":
 		var i int
 		fmt.Sscanf(parts[1], "%d", &i)
@@ -145,6 +176,9 @@ func (w *FeedWorld) Apply(op string) (string, []Violation) {
 		f.rec.CloseTerm()
 		for _, cn := range f.colls {
 			f.ended[cn] = true
+		}
+		if f.endCause == "" {
+			f.endCause = "terminator"
 		}
 	case "drop":
 		var hi int
@@ -160,6 +194,9 @@ func (w *FeedWorld) Apply(op string) (string, []Violation) {
 			for _, cn := range f.colls {
 				if cn == "B" {
 					f.ended[cn] = true
+					if f.endCause == "" && f.allEnded() {
+						f.endCause = "drop"
+					}
 				}
 			}
 		}
@@ -173,7 +210,7 @@ func (w *FeedWorld) Apply(op string) (string, []Violation) {
 		w.hState[hi] = "closed"
 		if w.cfg.Disk && w.hState[0] != "open" && w.hState[1] != "open" && !w.shutdown {
 			w.shutdown = true
-			w.endAll()
+			w.endAll("close")
 		}
 	case "delete":
 		var hi int
@@ -188,16 +225,19 @@ func (w *FeedWorld) Apply(op string) (string, []Violation) {
 		for i := range w.hState {
 			w.hState[i] = "dead"
 		}
-		w.endAll()
+		w.endAll("delete")
 	}
 	w.probe(c)
 	return result, c.out
 }
 
-func (w *FeedWorld) endAll() {
+func (w *FeedWorld) endAll(cause string) {
 	for _, f := range w.feeds {
 		for _, cn := range f.colls {
 			f.ended[cn] = true
+		}
+		if f.endCause == "" {
+			f.endCause = cause
 		}
 	}
 }
@@ -211,6 +251,12 @@ func (w *FeedWorld) probe(c *checker) {
 	check := func(when string) {
 		for i, f := range w.feeds {
 			done := f.rec.DoneClosed()
+			if f.rec.Holding {
+				if done {
+					c.add("C16", "done", "feed %d: done channel closed while its callback is still running", i)
+				}
+				continue
+			}
 			if done != f.allEnded() {
 				c.add("C16", "done", "feed %d (%v, dump=%v, via bucket API=%v) %s: done channel closed=%v, but it should be %v (ended collections %v)", i, f.colls, f.dump, f.viaBkt, when, done, f.allEnded(), f.ended)
 			}
@@ -245,8 +291,11 @@ func (w *FeedWorld) probe(c *checker) {
 					}
 				}
 				want := 0
-				if covers && !f.ended[cn] {
+				if covers && !f.ended[cn] && !f.dump {
 					want = 1
+				}
+				if f.rec.Holding {
+					want = 0
 				}
 				if len(got) != want {
 					c.add("C16", ifs(want == 1, "starved", "not-silent"), "feed %d (%v, via handle API=%v) received %d events for a write to %s through handle %d, want %d: %v", i, f.colls, f.viaBkt, len(got), cn, hi, want, got)
@@ -268,7 +317,7 @@ func (w *FeedWorld) Canon() string {
 			e = append(e, fmt.Sprintf("%s:%v", cn, f.ended[cn]))
 		}
 		sort.Strings(e)
-		fmt.Fprintf(&b, "%v/%v/%v/%v;", e, f.dump, f.viaBkt, f.rec.TermClosed)
+		fmt.Fprintf(&b, "%v/%v/%v/%v/%v/%v;", e, f.dump, f.viaBkt, f.rec.TermClosed, f.hold, f.rec.Holding)
 	}
 	fmt.Fprintf(&b, "|impl:%v %v %v", rosmar.VerifFeedCounts(w.h[0]), rosmar.VerifHandleFeedMapNil(w.h[0]), rosmar.VerifHandleFeedMapNil(w.h[1]))
 	return b.String()
@@ -277,6 +326,7 @@ func (w *FeedWorld) Canon() string {
 func (w *FeedWorld) Close() {
 	for _, f := range w.feeds {
 		f.rec.CloseTerm()
+		f.rec.Release()
 	}
 	quiesce()
 	_ = w.h[0].CloseAndDelete(ctx)
